@@ -28,4 +28,10 @@ esac
 
 ID="$1"; shift
 build
+if [ "$ID" = "C05" ]; then
+  # second build of the same binary at opt-level 0 (profile mcdev) for the stack-depth workers
+  log=$(mktemp)
+  if ! cargo build --offline --profile mcdev -p checks >"$log" 2>&1; then cat "$log"; rm -f "$log"; echo "MACHINERY-ERROR build (mcdev) failed"; exit 2; fi
+  rm -f "$log"
+fi
 exec ./target/mc/mc "$ID" "$@"
